@@ -1,54 +1,153 @@
+import Faithful.Lib.GsfaMap
+/-!
+# gsfa writer (C06): the state machine of `gsfa/gsfa-write.go` (repaired behaviour, see /verif/fixes/C06-1.patch)
+
+State `(accum, popRank, chan, parked, log)`; events: the client's `Push` (a preamble `begin slot` that may run
+the periodic flush, then one `push a e` per de-duplicated sorted address) and `bgRecv` (the background
+goroutine `fullBufferWriter` takes one batch from the channel).  `Close` is a function (`close`): once it holds
+`a.mu` only the background goroutine runs, it drains the channel, writes what it parked, and then the
+accumulator is flushed.
+
+A schedule is the event list itself: **every** interleaving of `bgRecv` with the client events is an event
+list, so a theorem for all event lists is a theorem for all timings of the goroutine.  The channel is unbounded
+in the model: a full Go channel only delays the sender until a `bgRecv` has happened, which is one of the
+interleavings (the driver respects the capacity when it picks one).
+
+All thresholds are parameters (`Params`); nothing below assumes a value for them.
+-/
 namespace Gsfa
 
-abbrev Addr := Nat
-abbrev Entry := Nat
+/-- `linkedlog.OffsetAndSizeAndSlot` -/
+structure Entry where
+  off : UInt64
+  size : UInt64
+  slot : UInt64
+  flags : UInt8
+deriving DecidableEq, Repr, Inhabited
+
 abbrev Batch := Addr × List Entry
 
-structure St where
-  accum  : Addr → List Entry       -- oldest first
-  chan   : List Batch              -- FIFO to the background goroutine
-  parked : List Batch              -- tmpBuf of the background goroutine
-  log    : List Batch              -- records in file order (each record = one batch of one address)
+structure Params where
+  /-- `itemsPerBatch` (1000) -/
+  B : Nat
+  /-- `howManyBuffersToFlushConcurrently` (256) -/
+  P : Nat
+  /-- periodic flush when `accum.Len() > K` (100 000) -/
+  K : Nat
+  /-- … and `slot % M == 0` (500) -/
+  M : Nat
+  /-- … of the keys with fewer than `T` values (100) that are not in the popularity list -/
+  T : Nat
+  /-- `rankListSize` of `popRank` (10 000) -/
+  R : Nat
 
-def ofKey (a : Addr) (l : List Batch) : List Entry := (l.filter (fun b => b.1 == a)).flatMap (·.2)
+abbrev AccMap := FMap (List Entry) []
+abbrev RankMap := FMap Nat 0
 
-/-- everything the index knows about `a`, oldest first -/
-def view (s : St) (a : Addr) : List Entry :=
-  ofKey a s.log ++ ofKey a s.parked ++ ofKey a s.chan ++ s.accum a
+structure St (A : AccMap) (Rk : RankMap) where
+  /-- per address: the entries not yet handed over, oldest first -/
+  accum : A.M
+  /-- `popRank.set`: how many full batches an address has produced (0 = absent) -/
+  rank : Rk.M
+  /-- `fullBufferWriterChan`, FIFO -/
+  chan : List Batch
+  /-- `tmpBuf` of the background goroutine, in arrival order -/
+  parked : List Batch
+  /-- the batches written to the linked log so far, NEWEST FIRST (`log` is the file order) -/
+  rlog : List Batch
 
-def init : St := { accum := fun _ => [], chan := [], parked := [], log := [] }
+variable {A : AccMap} {Rk : RankMap}
+
+def St.log (s : St A Rk) : List Batch := s.rlog.reverse
+
+def init : St A Rk := { accum := A.empty, rank := Rk.empty, chan := [], parked := [], rlog := [] }
 
 inductive Ev where
-  | push (a : Addr) (e : Entry)      -- one (address, entry) pair of a Push call
-  | bgRecv                            -- background goroutine takes one batch from the channel
-  | drain                             -- Close: background goroutine flushes what it parked (channel empty)
-  | flushAccum (a : Addr)             -- Close: synchronous flush of one accumulated key (after drain)
+  /-- start of a `Push(slot, …)` call: runs the periodic flush when its condition holds -/
+  | begin (slot : Nat)
+  /-- one (address, entry) pair of a `Push` call -/
+  | push (a : Addr) (e : Entry)
+  /-- the background goroutine receives one batch from the channel -/
+  | bgRecv
+deriving DecidableEq, Repr
 
-variable (B P : Nat)
+def Ev.isClient : Ev → Bool
+  | .bgRecv => false
+  | _ => true
 
-def step (s : St) : Ev → St
+/-! ## popRank -/
+
+/-- `purge`: the distinct values present, ascending (`Values()`, `sort.Ints`, `slices.Compact`) -/
+def rankVals (rk : Rk.M) : List Nat := sortDedup (((Rk.keys rk).map (Rk.get rk)).filter (· ≠ 0))
+
+/-- `rollingRankOfTopPerformers.purge`: when more than `R` distinct values are present, every key holding one
+    of the lowest values is removed -/
+def purge (R : Nat) (rk : Rk.M) : Rk.M :=
+  let vals := rankVals rk
+  if vals.length ≤ R then rk
+  else
+    let low := vals.take (vals.length - R)
+    (Rk.keys rk).foldl (fun m k => if Rk.get rk k ∈ low then Rk.set m k 0 else m) rk
+
+theorem purge_noop {R : Nat} {rk : Rk.M} (h : (rankVals rk).length ≤ R) : purge R rk = rk := by
+  simp [purge, h]
+
+/-! ## steps -/
+
+/-- body of the periodic loop for one key -/
+def flushSmall (p : Params) (s : St A Rk) (a : Addr) : St A Rk :=
+  let v := A.get s.accum a
+  if v.length < p.T ∧ 0 < v.length ∧ Rk.get s.rank a = 0 then
+    { s with rlog := (a, v) :: s.rlog, accum := A.set s.accum a [] }
+  else s
+
+/-- the periodic partial flush inside `Push` -/
+def periodic (p : Params) (s : St A Rk) : St A Rk :=
+  (A.keys s.accum).foldl (flushSmall p) { s with rank := purge p.R s.rank }
+
+def step (p : Params) (s : St A Rk) : Ev → St A Rk
+  | .begin slot => if slot % p.M = 0 ∧ A.size s.accum > p.K then periodic p s else s
   | .push a e =>
-    let cur := s.accum a ++ [e]
-    if cur.length ≥ B then
-      { s with chan := s.chan ++ [(a, cur)], accum := fun x => if x = a then [] else s.accum x }
+    let cur := A.get s.accum a
+    if cur = [] then
+      -- first entry of the key: stored without looking at the batch size
+      { s with accum := A.set s.accum a [e] }
     else
-      { s with accum := fun x => if x = a then cur else s.accum x }
+      let cur' := cur ++ [e]
+      if cur'.length ≥ p.B then
+        { s with rank := Rk.set s.rank a (Rk.get s.rank a + 1), chan := s.chan ++ [(a, cur')],
+                 accum := A.set s.accum a [] }
+      else
+        { s with accum := A.set s.accum a cur' }
   | .bgRecv =>
     match s.chan with
     | [] => s
     | x :: c =>
-      if s.parked.length = P ∨ s.parked.any (fun b => b.1 == x.1) then
-        { s with chan := c, log := s.log ++ s.parked, parked := [x] }
+      if s.parked.length = p.P ∨ s.parked.any (fun b => b.1 == x.1) then
+        { s with chan := c, rlog := s.parked.reverse ++ s.rlog, parked := [x] }
       else
         { s with chan := c, parked := s.parked ++ [x] }
-  | .drain =>
-    match s.chan with
-    | [] => { s with log := s.log ++ s.parked, parked := [] }
-    | _ :: _ => s                      -- not enabled while the channel is non-empty
-  | .flushAccum a =>
-    if s.chan = [] ∧ s.parked = [] then
-      { s with log := s.log ++ [(a, s.accum a)], accum := fun x => if x = a then [] else s.accum x }
-    else s                             -- not enabled before the background goroutine is done
+
+def run (p : Params) (evs : List Ev) (s : St A Rk) : St A Rk := evs.foldl (step p) s
+
+/-- `flushAccum` body for one key -/
+def flushKey (s : St A Rk) (a : Addr) : St A Rk :=
+  { s with rlog := (a, A.get s.accum a) :: s.rlog, accum := A.set s.accum a [] }
+
+/-- `Close` (repaired order): the goroutine empties the channel, writes what it parked and exits; only then
+    the accumulator is flushed, key by key in ascending order -/
+def close (p : Params) (s : St A Rk) : St A Rk :=
+  let s1 := run p (List.replicate s.chan.length Ev.bgRecv) s
+  let s2 := { s1 with rlog := s1.parked.reverse ++ s1.rlog, parked := [] }
+  (A.keys s2.accum).foldl flushKey s2
+
+/-! ## views -/
+
+def ofKey (a : Addr) (l : List Batch) : List Entry := (l.filter (fun b => b.1 == a)).flatMap (·.2)
+
+/-- everything the index knows about `a`, oldest first -/
+def view (s : St A Rk) (a : Addr) : List Entry :=
+  ofKey a s.log ++ ofKey a s.parked ++ ofKey a s.chan ++ A.get s.accum a
 
 /-- the pushes of address `a` in an event history, oldest first -/
 def hist (a : Addr) : List Ev → List Entry
@@ -59,7 +158,7 @@ def hist (a : Addr) : List Ev → List Entry
 theorem ofKey_append (a : Addr) (l1 l2 : List Batch) : ofKey a (l1 ++ l2) = ofKey a l1 ++ ofKey a l2 := by
   simp [ofKey, List.filter_append, List.flatMap_append]
 
-theorem ofKey_nil (a : Addr) : ofKey a [] = [] := rfl
+@[simp] theorem ofKey_nil (a : Addr) : ofKey a [] = [] := rfl
 
 theorem ofKey_single (a : Addr) (b : Batch) : ofKey a [b] = if b.1 = a then b.2 else [] := by
   unfold ofKey
@@ -68,80 +167,277 @@ theorem ofKey_single (a : Addr) (b : Batch) : ofKey a [b] = if b.1 = a then b.2 
   · have hb : (b.1 == a) = false := by simp [h]
     simp [List.filter, hb, h]
 
-/-- one step appends exactly the pushed entry to the view of its address and changes no other view -/
-theorem view_step (s : St) (ev : Ev) (a : Addr) :
-    view (step B P s ev) a = view s a ++ (match ev with | .push a' e => if a' = a then [e] else [] | _ => []) := by
+theorem ofKey_cons (a : Addr) (b : Batch) (l : List Batch) :
+    ofKey a (b :: l) = (if b.1 = a then b.2 else []) ++ ofKey a l := by
+  have : b :: l = [b] ++ l := rfl
+  rw [this, ofKey_append, ofKey_single]
+
+theorem ofKey_eq_nil_of_forall {a : Addr} {l : List Batch} (h : ∀ b ∈ l, b.1 ≠ a) : ofKey a l = [] := by
+  induction l with
+  | nil => rfl
+  | cons b l ih =>
+    rw [ofKey_cons, ih (fun b hb => h b (List.mem_cons_of_mem _ hb))]
+    simp [h b (List.mem_cons_self ..)]
+
+/-- the safety invariant behind the periodic flush: a key with a batch in flight is in the popularity list -/
+def Inv (s : St A Rk) : Prop := ∀ b, b ∈ s.parked ∨ b ∈ s.chan → Rk.get s.rank b.1 ≠ 0
+
+theorem inv_init : Inv (init : St A Rk) := by
+  intro b h; simp [init] at h
+
+theorem log_cons (s : St A Rk) (b : Batch) : St.log { s with rlog := b :: s.rlog } = s.log ++ [b] := by
+  simp [St.log]
+
+/-! ### the periodic flush -/
+
+theorem flushSmall_frame (p : Params) (s : St A Rk) (a : Addr) :
+    (flushSmall p s a).rank = s.rank ∧ (flushSmall p s a).parked = s.parked ∧ (flushSmall p s a).chan = s.chan := by
+  by_cases hc : (A.get s.accum a).length < p.T ∧ 0 < (A.get s.accum a).length ∧ Rk.get s.rank a = 0 <;>
+    simp [flushSmall, hc]
+
+theorem flushSmall_view (p : Params) (s : St A Rk) (hi : Inv s) (k a : Addr) :
+    view (flushSmall p s k) a = view s a := by
+  unfold flushSmall
+  by_cases hc : (A.get s.accum k).length < p.T ∧ 0 < (A.get s.accum k).length ∧ Rk.get s.rank k = 0
+  · simp only [hc, and_self, if_true]
+    have hp : ofKey k s.parked = [] :=
+      ofKey_eq_nil_of_forall (fun b hb e => hi b (Or.inl hb) (e ▸ hc.2.2))
+    have hch : ofKey k s.chan = [] :=
+      ofKey_eq_nil_of_forall (fun b hb e => hi b (Or.inr hb) (e ▸ hc.2.2))
+    simp only [view, St.log, List.reverse_cons, ofKey_append, ofKey_single, A.get_set]
+    by_cases h : k = a
+    · subst h; simp [hp, hch]
+    · have h' : ¬ a = k := fun e => h e.symm
+      simp [h, h']
+  · simp [hc]
+
+theorem foldl_flushSmall (p : Params) (l : List Addr) (s : St A Rk) (hi : Inv s) :
+    (∀ a, view (l.foldl (flushSmall p) s) a = view s a) ∧
+    (l.foldl (flushSmall p) s).rank = s.rank ∧ (l.foldl (flushSmall p) s).parked = s.parked ∧
+    (l.foldl (flushSmall p) s).chan = s.chan := by
+  induction l generalizing s with
+  | nil => simp
+  | cons k l ih =>
+    simp only [List.foldl_cons]
+    obtain ⟨fr, fp, fc⟩ := flushSmall_frame p s k
+    have hi' : Inv (flushSmall p s k) := by
+      intro b hb; rw [fr]; rw [fp, fc] at hb; exact hi b hb
+    obtain ⟨h1, h2, h3, h4⟩ := ih (flushSmall p s k) hi'
+    refine ⟨fun a => ?_, ?_, ?_, ?_⟩
+    · rw [h1, flushSmall_view p s hi]
+    · rw [h2, fr]
+    · rw [h3, fp]
+    · rw [h4, fc]
+
+/-! ### one step -/
+
+/-- what the event adds to the history of `a` -/
+def pushed (a : Addr) : Ev → List Entry
+  | .push a' e => if a' = a then [e] else []
+  | _ => []
+
+/-- the side condition of a step: when a `Push` starts, `purge` finds at most `R` distinct values -/
+def evOk (p : Params) (s : St A Rk) : Ev → Prop
+  | .begin _ => (rankVals s.rank).length ≤ p.R
+  | _ => True
+
+/-- one event appends exactly the pushed entry to the view of its address, changes no other view, and keeps
+    the invariant -/
+theorem view_step (p : Params) (s : St A Rk) (hi : Inv s) (ev : Ev) (hok : evOk p s ev) :
+    (∀ a, view (step p s ev) a = view s a ++ pushed a ev) ∧ Inv (step p s ev) := by
   cases ev with
+  | begin slot =>
+    simp only [step, pushed, List.append_nil]
+    by_cases hc : slot % p.M = 0 ∧ A.size s.accum > p.K
+    · simp only [hc, and_self, if_true, periodic]
+      have hpu : purge p.R s.rank = s.rank := purge_noop hok
+      rw [hpu]
+      obtain ⟨h1, h2, h3, h4⟩ := foldl_flushSmall p (A.keys s.accum) s hi
+      refine ⟨fun a => ?_, ?_⟩
+      · exact h1 a
+      · intro b hb; rw [h2]; rw [h3, h4] at hb; exact hi b hb
+    · simp only [hc, if_false]
+      exact ⟨fun _ => trivial, hi⟩
   | push a' e =>
-    simp only [step]
-    by_cases hfull : (s.accum a' ++ [e]).length ≥ B
-    · simp only [hfull, if_true, view, ofKey_append, ofKey_single]
+    simp only [step, pushed]
+    by_cases hnil : A.get s.accum a' = []
+    · simp only [hnil, if_true]
+      refine ⟨fun a => ?_, hi⟩
+      simp only [view, St.log, A.get_set]
       by_cases h : a' = a
-      · subst h; simp
+      · subst h; simp [hnil]
       · have h' : ¬ a = a' := fun e => h e.symm
         simp [h, h']
-    · simp only [hfull, if_false, view]
-      by_cases h : a' = a
-      · subst h; simp
-      · have h' : ¬ a = a' := fun e => h e.symm
-        simp [h, h']
+    · simp only [hnil, if_false]
+      by_cases hfull : (A.get s.accum a' ++ [e]).length ≥ p.B
+      · simp only [hfull, if_true]
+        refine ⟨fun a => ?_, ?_⟩
+        · simp only [view, St.log, A.get_set, ofKey_append, ofKey_single]
+          by_cases h : a' = a
+          · subst h; simp
+          · have h' : ¬ a = a' := fun e => h e.symm
+            simp [h, h']
+        · intro b hb
+          simp only [Rk.get_set]
+          by_cases hb1 : b.1 = a'
+          · simp [hb1]
+          · simp only [hb1, if_false]
+            rcases hb with hb | hb
+            · exact hi b (Or.inl hb)
+            · rcases List.mem_append.mp hb with hb | hb
+              · exact hi b (Or.inr hb)
+              · simp at hb; subst hb; exact absurd rfl hb1
+      · simp only [hfull, if_false]
+        refine ⟨fun a => ?_, hi⟩
+        simp only [view, St.log, A.get_set]
+        by_cases h : a' = a
+        · subst h; simp
+        · have h' : ¬ a = a' := fun e => h e.symm
+          simp [h, h']
   | bgRecv =>
-    simp only [step]
+    simp only [step, pushed, List.append_nil]
     cases hc : s.chan with
-    | nil => simp
+    | nil => exact ⟨fun _ => rfl, hi⟩
     | cons x c =>
       simp only
-      by_cases hcond : s.parked.length = P ∨ s.parked.any (fun b => b.1 == x.1) = true
-      · simp only [hcond, if_true, view, hc]
-        have : ofKey a (x :: c) = ofKey a [x] ++ ofKey a c := by
-          rw [← ofKey_append]; rfl
-        rw [this, ofKey_append]
-        simp [List.append_assoc]
-      · simp only [hcond, if_false, view, hc]
-        have : ofKey a (x :: c) = ofKey a [x] ++ ofKey a c := by
-          rw [← ofKey_append]; rfl
-        rw [this, ofKey_append]
-        simp [List.append_assoc]
-  | drain =>
-    simp only [step]
-    cases hc : s.chan with
-    | nil => simp [view, hc, ofKey_append, ofKey_nil]
-    | cons x c => simp
-  | flushAccum a' =>
-    simp only [step]
-    by_cases hen : s.chan = [] ∧ s.parked = []
-    · simp only [hen, and_self, if_true, view, ofKey_append, ofKey_single, ofKey_nil]
-      by_cases h : a' = a
-      · subst h; simp
-      · have h' : ¬ a = a' := fun e => h e.symm
-        simp [h, h']
-    · simp [hen]
+      by_cases hcond : s.parked.length = p.P ∨ s.parked.any (fun b => b.1 == x.1) = true
+      · simp only [hcond, if_true]
+        refine ⟨fun a => ?_, ?_⟩
+        · simp only [view, St.log, hc, List.reverse_append, List.reverse_reverse, ofKey_append]
+          rw [ofKey_cons a x c, ofKey_single]
+          simp [List.append_assoc]
+        · intro b hb
+          rcases hb with hb | hb
+          · simp at hb; subst hb; exact hi _ (Or.inr (by rw [hc]; exact List.mem_cons_self ..))
+          · exact hi b (Or.inr (by rw [hc]; exact List.mem_cons_of_mem _ hb))
+      · simp only [hcond, if_false]
+        refine ⟨fun a => ?_, ?_⟩
+        · simp only [view, St.log, hc, ofKey_append]
+          rw [ofKey_cons a x c, ofKey_single]
+          simp [List.append_assoc]
+        · intro b hb
+          rcases hb with hb | hb
+          · rcases List.mem_append.mp hb with hb | hb
+            · exact hi b (Or.inl hb)
+            · simp at hb; subst hb; exact hi _ (Or.inr (by rw [hc]; exact List.mem_cons_self ..))
+          · exact hi b (Or.inr (by rw [hc]; exact List.mem_cons_of_mem _ hb))
 
-/-- for every interleaving of pushes with background-goroutine and Close events (a schedule is just
-    the event list), the view of each address is its push history — nothing lost, nothing reordered -/
-theorem view_run (evs : List Ev) (s : St) (a : Addr) :
-    view (evs.foldl (step B P) s) a = view s a ++ hist a evs := by
+/-- the side condition along a whole run -/
+def NoEvict (p : Params) : St A Rk → List Ev → Prop
+  | _, [] => True
+  | s, ev :: evs => evOk p s ev ∧ NoEvict p (step p s ev) evs
+
+theorem hist_cons (a : Addr) (ev : Ev) (evs : List Ev) : hist a (ev :: evs) = pushed a ev ++ hist a evs := by
+  cases ev with
+  | push a' e => by_cases h : a' = a <;> simp [hist, pushed, h]
+  | begin _ => simp [hist, pushed]
+  | bgRecv => simp [hist, pushed]
+
+/-- for every interleaving of pushes with background-goroutine events (a schedule is just the event list),
+    the view of each address is its push history — nothing lost, nothing duplicated, nothing reordered -/
+theorem view_run (p : Params) (evs : List Ev) (s : St A Rk) (hi : Inv s) (hne : NoEvict p s evs) :
+    (∀ a, view (run p evs s) a = view s a ++ hist a evs) ∧ Inv (run p evs s) := by
   induction evs generalizing s with
-  | nil => simp [hist]
+  | nil => exact ⟨fun a => by simp [run, hist], hi⟩
   | cons ev evs ih =>
-    simp only [List.foldl_cons]
-    rw [ih, view_step]
-    cases ev with
-    | push a' e =>
-      by_cases h : a' = a
-      · simp [hist, h]
-      · simp [hist, h]
-    | bgRecv => simp [hist]
-    | drain => simp [hist]
-    | flushAccum _ => simp [hist]
+    obtain ⟨h1, h2⟩ := view_step p s hi ev hne.1
+    obtain ⟨h3, h4⟩ := ih (step p s ev) h2 hne.2
+    refine ⟨fun a => ?_, h4⟩
+    have : run p (ev :: evs) s = run p evs (step p s ev) := rfl
+    rw [this, h3, h1, hist_cons, List.append_assoc]
 
-/-- once Close has finished (channel, parked and accum all empty) the log alone holds the history -/
-theorem closed_log (evs : List Ev) (a : Addr)
-    (hc : (evs.foldl (step B P) init).chan = []) (hp : (evs.foldl (step B P) init).parked = [])
-    (ha : (evs.foldl (step B P) init).accum a = []) :
-    ofKey a (evs.foldl (step B P) init).log = hist a evs := by
-  have := view_run B P evs init a
-  simp only [view, hc, hp, ha, ofKey_nil, List.append_nil] at this
-  simpa [init, ofKey_nil] using this
+/-! ### Close -/
+
+theorem noEvict_bg (p : Params) (n : Nat) (s : St A Rk) : NoEvict p s (List.replicate n Ev.bgRecv) := by
+  induction n generalizing s with
+  | zero => trivial
+  | succ n ih => exact ⟨trivial, ih _⟩
+
+theorem hist_bg (a : Addr) (n : Nat) : hist a (List.replicate n Ev.bgRecv) = [] := by
+  induction n with
+  | zero => rfl
+  | succ n ih => simp [List.replicate_succ, hist, ih]
+
+theorem chan_bgRecv (p : Params) (s : St A Rk) : (step p s .bgRecv).chan.length = s.chan.length - 1 := by
+  simp only [step]
+  cases hc : s.chan with
+  | nil => simp [hc]
+  | cons x c => simp only; split <;> simp
+
+theorem chan_recvAll (p : Params) (n : Nat) (s : St A Rk) (h : s.chan.length ≤ n) :
+    (run p (List.replicate n Ev.bgRecv) s).chan = [] := by
+  induction n generalizing s with
+  | zero => simpa [run] using h
+  | succ n ih =>
+    have : run p (List.replicate (n+1) Ev.bgRecv) s = run p (List.replicate n Ev.bgRecv) (step p s .bgRecv) := rfl
+    rw [this]
+    exact ih _ (by rw [chan_bgRecv]; omega)
+
+theorem flushKey_view (s : St A Rk) (hp : s.parked = []) (hc : s.chan = []) (k a : Addr) :
+    view (flushKey s k) a = view s a := by
+  simp only [flushKey, view, St.log, List.reverse_cons, ofKey_append, ofKey_single, A.get_set, hp, hc, ofKey_nil]
+  by_cases h : k = a
+  · subst h; simp
+  · have h' : ¬ a = k := fun e => h e.symm
+    simp [h, h']
+
+theorem foldl_flushKey (l : List Addr) (s : St A Rk) (hp : s.parked = []) (hc : s.chan = []) :
+    (∀ a, view (l.foldl flushKey s) a = view s a) ∧ (l.foldl flushKey s).parked = [] ∧ (l.foldl flushKey s).chan = [] ∧
+    (∀ a, A.get (l.foldl flushKey s).accum a = if a ∈ l then [] else A.get s.accum a) := by
+  induction l generalizing s with
+  | nil => simp [hp, hc]
+  | cons k l ih =>
+    simp only [List.foldl_cons]
+    obtain ⟨h1, h2, h3, h4⟩ := ih (flushKey s k) (by simp [flushKey, hp]) (by simp [flushKey, hc])
+    refine ⟨fun a => ?_, h2, h3, fun a => ?_⟩
+    · rw [h1, flushKey_view s hp hc]
+    · rw [h4]
+      simp only [flushKey, A.get_set, List.mem_cons]
+      by_cases hak : a = k
+      · simp [hak]
+      · by_cases hal : a ∈ l <;> simp [hak, hal]
+
+/-- after `Close` the log alone holds each address's view, and nothing is left anywhere else -/
+theorem close_log (p : Params) (s : St A Rk) (hi : Inv s) (a : Addr) :
+    ofKey a (close p s).log = view s a := by
+  unfold close
+  obtain ⟨hv1, _⟩ := view_run p (List.replicate s.chan.length Ev.bgRecv) s hi (noEvict_bg p _ s)
+  have hch := chan_recvAll p s.chan.length s (Nat.le_refl _)
+  generalize run p (List.replicate s.chan.length Ev.bgRecv) s = s1 at hv1 hch
+  simp only
+  -- the drain
+  have hv2 : ∀ a, view ({ s1 with rlog := s1.parked.reverse ++ s1.rlog, parked := [] } : St A Rk) a = view s1 a := by
+    intro a
+    simp [view, St.log, ofKey_append, List.append_assoc]
+  generalize hs2 : ({ s1 with rlog := s1.parked.reverse ++ s1.rlog, parked := [] } : St A Rk) = s2 at hv2
+  have hp2 : s2.parked = [] := by rw [← hs2]
+  have hc2 : s2.chan = [] := by rw [← hs2]; exact hch
+  have ha2 : s1.accum = s2.accum := by rw [← hs2]
+  rw [ha2]
+  obtain ⟨h1, h2, h3, h4⟩ := foldl_flushKey (A.keys s2.accum) s2 hp2 hc2
+  have hacc : A.get ((A.keys s2.accum).foldl flushKey s2).accum a = [] := by
+    rw [h4]
+    by_cases hm : a ∈ A.keys s2.accum
+    · simp [hm]
+    · simp only [hm, if_false]
+      apply Classical.byContradiction
+      intro hne
+      exact hm (A.keys_complete _ _ hne)
+  have := h1 a
+  simp only [view, h2, h3, hacc, ofKey_nil, List.append_nil] at this
+  rw [this]
+  have e1 := hv2 a
+  have e2 := hv1 a
+  rw [hist_bg, List.append_nil] at e2
+  simp only [view] at e1 e2 ⊢
+  rw [e1, e2]
+
+/-- **L1**: for every event list (= every schedule) the closed log holds, per address, exactly its pushes in
+    push order -/
+theorem closed_log (p : Params) (evs : List Ev) (hne : NoEvict p (init : St A Rk) evs) (a : Addr) :
+    ofKey a (close p (run p evs (init : St A Rk))).log = hist a evs := by
+  obtain ⟨hv, hi⟩ := view_run p evs (init : St A Rk) inv_init hne
+  rw [close_log p _ hi, hv]
+  simp [view, init, St.log, A.get_empty]
 
 end Gsfa
